@@ -9,7 +9,6 @@ From V Require Import Model.TimeDelta.
 Import ListNotations.
 Open Scope Z_scope.
 Ltac Zify.zify_post_hook ::= Z.to_euclidean_division_equations.
-Set Default Timeout 120.
 
 Module M := V.Model.C08.
 Module J := V.Judge.C08.
